@@ -254,6 +254,28 @@ func init() {
 			return st.code
 		},
 
+		"github.com/openconfig/gribigo/rib.isNil": func(fr *frame, fn *ssa.Function, a []value) value {
+			switch x := a[0].(type) {
+			case *value:
+				return x == nil
+			case *smap:
+				return x == nil
+			case *schan:
+				return x == nil
+			case iface:
+				if x.t == nil {
+					return true
+				}
+				if p, ok := x.v.(*value); ok {
+					return p == nil
+				}
+				return false
+			case nil:
+				return true
+			}
+			return false
+		},
+
 		// deep copy / equality
 		"google.golang.org/protobuf/proto.Clone": func(fr *frame, fn *ssa.Function, a []value) value {
 			return deepCopy(a[0], map[*value]*value{}, map[*smap]*smap{})
